@@ -11,9 +11,11 @@ from mc import harness, engine
 LR = 0.1
 LRS = {"quick": (0.1,), "thorough": (0.1, 0.01)}
 A1 = np.array([0.7, -1.3]); B2 = np.array([[0.5, -1.0], [2.0, 0.25]]); D1 = np.array([-0.4, 0.9])
-INIT = {"w1": np.array([1.5, -0.5]), "w2": np.array([[0.75, -2.0], [1.25, 0.5]]), "w3": np.array([0.3, -0.8]), "w4": np.array([2.0, -1.0])}
-DT = {"w1": np.float64, "w2": np.float32, "w3": np.float64, "w4": np.float64}
-OPT_PARAMS = ["w1", "w2", "w3"]          # w3 is frozen, w4 is never given to the optimizer
+INIT = {"w1": np.array([1.5, -0.5]), "w2": np.array([[0.75, -2.0], [1.25, 0.5]]), "w3": np.array([0.3, -0.8]), "w4": np.array([2.0, -1.0]),
+        "w5": np.array(0.8)}
+DT = {"w1": np.float64, "w2": np.float32, "w3": np.float64, "w4": np.float64, "w5": np.float64}
+OPT_PARAMS = ["w1", "w2", "w3", "w5"]    # w3 is frozen, w4 is never given to the optimizer, w5 is a 0-d (scalar) parameter
+TRAINED = ("w1", "w2", "w5")
 EVENTS = "BbzS"
 
 def configs():
@@ -34,10 +36,10 @@ def grads(vals, which):
     """closed-form gradients of the two losses at the current parameter values
     L1 = sum(b*w2) + 0.5*sum(w2*w2) + sum(w3*d);      (does NOT involve w1: until the first backward(L2) the FIRST parameter
     L2 = sum(a*w1*w1) + sum(d*w1) + 0.5*sum(w2*w2) + sum(w4*w4)    of the optimizer has no gradient and must be skipped)"""
-    w1, w2, w3, w4 = (np.asarray(vals[k], dtype=np.float64) for k in ("w1", "w2", "w3", "w4"))
+    w1, w2, w3, w4, w5 = (np.asarray(vals[k], dtype=np.float64) for k in ("w1", "w2", "w3", "w4", "w5"))
     if which == "B":
-        return {"w1": None, "w2": B2 + w2, "w3": D1.copy(), "w4": None}
-    return {"w1": 2 * A1 * w1 + D1, "w2": w2.copy(), "w3": None, "w4": 2 * w4}
+        return {"w1": None, "w2": B2 + w2, "w3": D1.copy(), "w4": None, "w5": np.asarray(1.3)}
+    return {"w1": 2 * A1 * w1 + D1, "w2": w2.copy(), "w3": None, "w4": 2 * w4, "w5": np.asarray(1.4 * w5)}
 
 class RefOpt:
     """update rules as printed in the PyTorch docs (SGD / Adam / AdamW algorithm boxes), per-parameter state"""
@@ -83,8 +85,9 @@ def make_torch(cfg):
 def lib_loss(sg, P, which):
     T = sg.Tensor
     if which == "B":
-        return (P["w2"] * T(B2.astype(np.float32))).sum() + (P["w2"] * P["w2"]).sum() * 0.5 + (P["w3"] * T(D1.copy())).sum()
-    return (P["w1"] * P["w1"] * T(A1.copy())).sum() + (P["w1"] * T(D1.copy())).sum() + (P["w2"] * P["w2"]).sum() * 0.5 + (P["w4"] * P["w4"]).sum()
+        return (P["w2"] * T(B2.astype(np.float32))).sum() + (P["w2"] * P["w2"]).sum() * 0.5 + (P["w3"] * T(D1.copy())).sum() + P["w5"] * 1.3
+    return ((P["w1"] * P["w1"] * T(A1.copy())).sum() + (P["w1"] * T(D1.copy())).sum() + (P["w2"] * P["w2"]).sum() * 0.5 + (P["w4"] * P["w4"]).sum()
+            + P["w5"] * P["w5"] * 0.7)
 
 def tol(name):
     return (3e-6, 3e-6) if DT[name] == np.float32 else (1e-10, 1e-12)
@@ -94,8 +97,8 @@ def run_history(cfg, hist):
     sg, P, opt = make_lib(cfg)
     t, TP, topt = make_torch(cfg)
     ref = RefOpt(cfg)
-    alts = {"w1": [dict(RefOpt.FRESH)], "w2": [dict(RefOpt.FRESH)]}   # admissible optimizer states per parameter
-    ambiguous = {"w1": False, "w2": False}
+    alts = {k: [dict(RefOpt.FRESH)] for k in TRAINED}   # admissible optimizer states per parameter
+    ambiguous = {k: False for k in TRAINED}
     mgrad = {k: None for k in INIT}           # model gradients (None = absent)
     zero_only = set()                          # gradient exists only because zero_grad created it
     ident = {k: (id(P[k]), P[k].dtype, P[k].shape) for k in INIT}
@@ -125,16 +128,16 @@ def run_history(cfg, hist):
                 mgrad[k] = gk if mgrad[k] is None else mgrad[k] + gk
                 zero_only.discard(k)
                 if k != "w4":
-                    TP[k].grad = t.from_numpy(mgrad[k].copy())
+                    TP[k].grad = t.from_numpy(np.array(mgrad[k], dtype=np.float64))
         elif e == "z":
-            for k in ("w1", "w2"):
+            for k in TRAINED:
                 if mgrad[k] is None: zero_only.add(k)
                 else:
                     mgrad[k] = np.zeros_like(mgrad[k]); TP[k].grad = t.zeros_like(TP[k])
         # ---- expected parameter values: per parameter a SET of admissible (value, state) successors
         exp = {k: [(vals[k], None)] for k in INIT}      # default: unchanged
         if e == "S":
-            for k in ("w1", "w2"):
+            for k in TRAINED:
                 cands = []
                 for st in alts[k]:
                     if mgrad[k] is not None:
@@ -172,7 +175,7 @@ def run_history(cfg, hist):
         if e == "S":
             with t.no_grad():
                 topt.step()
-            for k in ("w1", "w2"):
+            for k in TRAINED:
                 if ambiguous[k]: continue
                 tv = TP[k].detach().numpy()
                 if not np.allclose(tv, exp[k][0][0], rtol=1e-11, atol=1e-13):
@@ -218,7 +221,7 @@ def run(tier, seed):
            "rule": f"{len(cfgs)} hyper-parameter configurations (SGD: momentum x dampening x nesterov x weight_decay x maximize, "
                    f"constructor-accepted only; Adam/AdamW: weight_decay x maximize x betas x eps) x ALL {4 ** depth} histories of "
                    f"length {depth} over {{backward(L1), backward(L2), zero_grad, step}} (every shorter history is a prefix and is "
-                   "compared event by event): parameters w1 (float64), w2 (float32, 2x2), frozen w3 and foreign w4; states = "
+                   "compared event by event): parameters w1 (float64, first gradient arrives late), w2 (float32, 2x2), w5 (0-d), frozen w3 and foreign w4; states = "
                    "(configuration, history prefix) pairs; after every event parameter values vs the transcribed PyTorch rules "
                    "(cross-validated against torch.optim at 1e-11), identity/dtype/shape, frozen and foreign parameters byte-identical"}
     return {"level": "model_checking", "violations": viols, "coverage": cov,
